@@ -12,6 +12,11 @@ import json, os
 from common import *
 
 LEVEL = "model_checking"
+MANIFEST = dict(
+    technique='TLA+ spec Terminator.tla model-checked by TLC (invariants, liveness, refinement to AbstractTermination); TLC behaviours replayed step-by-step into the real Terminator via gates + sync shim; recorded runs validated against TerminatorTrace.tla',
+    text='Exhaustive TLC exploration of the termination protocol (every interleaving of the critical sections and the two lock-free loads for 2-4 workers, adversarial work pool) proves NoEarlyTermination/termination/refinement for the design; conformance in both directions binds the design to terminator.rs: TLC-generated behaviours are stepped through the real code with the counters compared after every step, and free-running executions are validated as behaviours of the spec.',
+    note="Trusted: TLC, the transcription of the worker loop's pool operations (harness pool instead of crossbeam deques), sequential consistency for the Relaxed counters, bounded configuration (N<=4, budget<=4) for exhaustiveness.",
+    ref='4/C12')
 CONC = os.path.join(SPEC, "conc")
 
 
